@@ -71,6 +71,29 @@ def on_cycle(graph):
     return out
 
 
+def enumerate_model(n, maxlen, starts_list):
+    """every digraph on n nodes with at most maxlen ordered children per node, every history of starts_list, through the Lean model: the graphs
+    whose repaired memo is not exact (a test of the model over a small scope, not a proof)"""
+    import itertools, json, subprocess, threading
+    from common import DRIVER
+    cl = [[]] + [list(p) for L in range(1, maxlen + 1) for p in itertools.permutations(range(n), L)]
+    proc = subprocess.Popen([DRIVER], stdin=subprocess.PIPE, stdout=subprocess.PIPE, text=True, bufsize=1 << 20)
+    def feed():
+        for combo in itertools.product(cl, repeat=n):
+            g = [[i, combo[i]] for i in range(n)]
+            for st in starts_list: proc.stdin.write(json.dumps({"op": "rec", "id": 0, "graph": g, "starts": st, "fuel": 5000}) + "\n")
+        proc.stdin.close()
+    th = threading.Thread(target=feed); th.start()
+    total, bad = 0, []
+    combos = ((combo, st) for combo in itertools.product(cl, repeat=n) for st in starts_list)
+    for line, (combo, st) in zip(proc.stdout, combos):
+        o = json.loads(line); total += 1; cyc = set(o.get("on_cycle", []))
+        if "error" in o or any(b != (k in cyc) for k, b in o["fixed"]):
+            if len(bad) < 3: bad.append({"edges": [list(c) for c in combo], "starts": st, "model": o})
+    th.join(); proc.wait()
+    return total, bad
+
+
 def minimal(ns, names, edges_of, depth):
     """a datum that walks one level of every field"""
     return {}
@@ -141,4 +164,18 @@ def run_part(seed, budget, exit_model="fixed"):
         if why or not k_ok:
             failures.append({"kind": "P" if why else "K", "k_ok": k_ok, "mode": "rec-graph", "case": case, "why": why or ["memo-differs-from-model"]})
     hist["rec-graph-K-compared"] = len(cases); hist["rec-graph-K-disagreements"] = k_bad
+    # small-scope enumeration of the model (quick: 3 nodes, up to 3 children; thorough: 4 nodes, up to 2 children); a graph whose model memo is not exact is replayed on the real code
+    scope = (4, 2, [[0], [2, 0]]) if budget >= 4 else (3, 3, [[0], [1, 0]])
+    total, bad = enumerate_model(*scope)
+    hist[f"rec-graph-model-enumeration:{scope[0]}-nodes-{scope[1]}-children"] = total; n += total
+    for b in bad:
+        names, src, edges = gen_graph(r, f"{seed}_enum{len(failures)}", b["edges"])
+        ns = vars(build_module(src, f"recg{seed}_enum{len(failures)}")); classes = [ns[x] for x in names]
+        ids, graph = type_graph(classes); apischema.cache.reset()
+        dc = settings.deserialization.default_conversion
+        for st in b["starts"]: is_recursive(classes[st], None, dc, DeserializationRecursiveChecker)
+        memo = {ids[k[0]]: v for k, v in recursion_cache(DeserializationRecursiveChecker, dc).items() if k[0] in ids and k[1] is None}
+        cyc = on_cycle(graph); wrong = sorted(i for i, v in memo.items() if v != (i in cyc))
+        failures.append({"kind": "P" if wrong else "K", "k_ok": bool(wrong), "mode": "rec-graph-enumeration", "case": {"classes": src, "starts": b["starts"], "edges": b["edges"], "model": b["model"]},
+                         "why": ["is_recursive-not-exact:" + ",".join(map(str, wrong))] if wrong else ["model-memo-not-exact-but-the-real-memo-is"]})
     return failures, n, distinct, hist
